@@ -10,7 +10,11 @@ use vharness::props;
 #[global_allocator]
 static ALLOC: vharness::util::CountingAlloc = vharness::util::CountingAlloc;
 
-const VERIF: &str = "/verif";
+/// Output root (work/, replays/, evidence/). Registered checks use /verif; the seeded-defect tooling points this
+/// (together with VERIF_REPO in ./check) at a scratch directory so that several trees can be checked side by side.
+fn verif_root() -> String {
+    vharness::util::verif_root()
+}
 
 fn usage() -> ! {
     eprintln!("usage: vcheck run <PROP> <quick|thorough> [seed] | worker ... | replay <file> | c18-child <scenario> <n> <stack_kib> | probe <file>");
@@ -132,7 +136,10 @@ fn spawn(prop: &str, tier: Tier, seed: u64, job: &mut Job, budget_s: f64) -> Res
     let mut cmd = match job.variant.as_str() {
         "miri" => {
             let mut c = Command::new("cargo");
-            c.args(["+nightly", "miri", "run", "--quiet", "--manifest-path", "/verif/harness/Cargo.toml", "--target-dir", "/verif/target-miri", "--bin", "vcheck", "--"]);
+            c.args(["+nightly", "miri", "run", "--quiet", "--manifest-path"]);
+            c.arg(format!("{}/Cargo.toml", std::env::var("VERIF_HARNESS_DIR").unwrap_or_else(|_| "/verif/harness".into())));
+            c.arg("--target-dir").arg(format!("{}/target-miri", verif_root()));
+            c.args(["--bin", "vcheck", "--"]);
             c.env("MIRIFLAGS", "-Zmiri-tree-borrows -Zmiri-disable-isolation");
             c.env("CARGO_NET_OFFLINE", "true");
             c
@@ -193,7 +200,7 @@ fn merge_value(dst: &mut Value, src: &Value, key: &str) {
 }
 
 fn load_known() -> Value {
-    std::fs::read_to_string(format!("{}/known_findings.json", VERIF)).ok().and_then(|t| serde_json::from_str(&t).ok()).unwrap_or_else(|| json!({"findings": [], "fixed": []}))
+    std::fs::read_to_string(vharness::util::known_findings_path()).ok().and_then(|t| serde_json::from_str(&t).ok()).unwrap_or_else(|| json!({"findings": [], "fixed": []}))
 }
 
 /// does a raw violation match a listed known finding?
@@ -235,16 +242,21 @@ fn match_known<'a>(known: &'a Value, v: &Value) -> Option<&'a Value> {
 
 fn supervise(prop: &str, tier: Tier, seed: u64) -> i32 {
     let t0 = Instant::now();
-    let plan = props::plan(prop, tier);
+    let mut plan = props::plan(prop, tier);
+    // development aid for the seeded-defect sweeps (never set by a registered command): restrict the build variants
+    let variant_filter: Option<Vec<String>> = std::env::var("VERIF_VARIANTS").ok().filter(|s| !s.is_empty()).map(|s| s.split(',').map(|x| x.to_string()).collect());
+    if let Some(f) = &variant_filter {
+        plan.retain(|(v, _)| f.contains(v));
+    }
     if plan.is_empty() {
         eprintln!("unknown property {}", prop);
         return 2;
     }
-    let work = format!("{}/work/{}-{}", VERIF, prop, tier.name());
+    let work = format!("{}/work/{}-{}", verif_root(), prop, tier.name());
     let _ = std::fs::remove_dir_all(&work);
     std::fs::create_dir_all(&work).expect("create work dir");
-    std::fs::create_dir_all(format!("{}/replays", VERIF)).ok();
-    std::fs::create_dir_all(format!("{}/evidence", VERIF)).ok();
+    std::fs::create_dir_all(format!("{}/replays", verif_root())).ok();
+    std::fs::create_dir_all(format!("{}/evidence", verif_root())).ok();
     let budget_s: f64 = std::env::var("VERIF_BUDGET_S").ok().and_then(|s| s.parse().ok()).unwrap_or(match tier {
         Tier::Quick => 40.0,
         Tier::Thorough => 600.0,
@@ -266,7 +278,7 @@ fn supervise(prop: &str, tier: Tier, seed: u64) -> i32 {
     }
     let mut harness_errors: Vec<String> = Vec::new();
     // run at most 16 at a time
-    let max_par = 16usize;
+    let max_par: usize = std::env::var("VERIF_MAX_PAR").ok().and_then(|s| s.parse().ok()).filter(|n| *n > 0).unwrap_or(16);
     let mut next = 0usize;
     let mut running: Vec<usize> = Vec::new();
     let mut timed_out = false;
@@ -422,7 +434,7 @@ fn supervise(prop: &str, tier: Tier, seed: u64) -> i32 {
             continue;
         }
         n_written += 1;
-        let name = format!("{}/replays/{}-{}-{:016x}.json", VERIF, prop, tier.name(), vharness::util::fnv64(key.as_bytes()) ^ seed);
+        let name = format!("{}/replays/{}-{}-{:016x}.json", verif_root(), prop, tier.name(), vharness::util::fnv64(key.as_bytes()) ^ seed);
         let _ = std::fs::write(&name, serde_json::to_string_pretty(v).unwrap());
         let first: String = v["detail"].as_str().unwrap_or("").lines().next().unwrap_or("").chars().take(400).collect();
         println!("violation [{}] {}", v["symptom"].as_str().unwrap_or(""), first);
@@ -445,6 +457,9 @@ fn supervise(prop: &str, tier: Tier, seed: u64) -> i32 {
     coverage.insert("maxima".into(), merged["maxima"].clone());
     coverage.insert("monitors_observed".into(), merged["monitor"].clone());
     coverage.insert("build_variants".into(), json!(per_variant));
+    if let Some(f) = &variant_filter {
+        coverage.insert("build_variants_restricted_to".into(), json!(f));
+    }
     coverage.insert("known_findings_reported".into(), json!(known_lines.iter().collect::<Vec<_>>()));
     coverage.insert("unlisted_violations".into(), json!(unlisted.len()));
     if let Some(x) = merged["monitor"].get("exhaustive") {
@@ -483,7 +498,7 @@ fn supervise(prop: &str, tier: Tier, seed: u64) -> i32 {
         "property_id": prop, "tier": tier.name(), "seed": seed, "level": "exploration", "coverage": coverage,
         "assumptions": level_note, "wall_s": wall, "violations": unlisted.len(),
     });
-    let _ = std::fs::write(format!("{}/evidence/{}.json", VERIF, prop), serde_json::to_string_pretty(&evidence).unwrap());
+    let _ = std::fs::write(format!("{}/evidence/{}.json", verif_root(), prop), serde_json::to_string_pretty(&evidence).unwrap());
     println!(
         "{} {} seed={} evaluations={} distinct_nontrivial={} variants={:?} wall={:.1}s verdict={}",
         prop,
